@@ -46,6 +46,7 @@ def gen_scenario_shell(rng):
 
 
 CSH, EUPS_PATH_FORMS, MS_CLI = 40, 30, 30       # quick-tier sizes of the families added in round 6
+DIRECTORY = 40          # quick-tier size of the family added in round 7 (setup -r DIR / -m TABLE, then unsetup)
 UNNORMALISED = ["@STACK@/", "@STACK@:/nonexistent/stack", "@STACK@:@STACK@", "@STACK@/./", ":@STACK@", "@STACK@//:/nonexistent"]
 
 
@@ -161,6 +162,68 @@ def gen_envunset_own_dir(rng):
     name = rng.choice([top, top, lo])
     return {"world": w, "requests": [{"name": name, "fwd": True}, {"name": name, "fwd": False}],
             "env0": {"PATH": "/usr/bin:/bin"}}
+
+
+def gen_scenario_directory(rng):
+    """setup X then unsetup X where X is named by its directory and/or a table file of the user's choice (setup -r DIR,
+    setup -r DIR -m TABLE with a table kept outside DIR/ups, DIR with or without a table of its own, setup X 1.0 -m
+    TABLE of a declared product); the unsetup is a new invocation that sees the environment only.  The tables name
+    their own variables and (sometimes) require a declared product"""
+    def lines(tagword, dep):
+        out = ["envPrepend(PATH, ${PRODUCT_DIR}/bin%s)" % tagword]
+        if rng.random() < 0.7:
+            out.append("envSet(TOOL_MODE%s, %s)" % (tagword, tagword or "own"))
+        if rng.random() < 0.6:
+            out.append("envAppend(TOOL_PATH, ${PRODUCT_DIR}/lib%s)" % tagword)
+        if dep:
+            out.append(rng.choice(["setupRequired(lib)", "setupRequired(lib 1.0)", "setupOptional(lib)", "setupOptional(nosuch)"]))
+        return out
+    own = lambda n: ["envPrepend(PATH, ${PRODUCT_DIR}/bin)", "envSet(%s_HOME, ${PRODUCT_DIR}/home)" % n.upper()]
+    w = {"root": "stack", "products": {"lib": {"1.0": own("lib"), "2.0": own("lib")},
+                                       "tool": {"1.0": lines("_D", rng.random() < 0.4)}},
+         "current": {"lib": rng.choice(["1.0", "2.0"]), "tool": "1.0"}, "generic": [], "family": "directory-and-table-file"}
+    shape = rng.choice(["r-and-m", "r-and-m", "r-and-m", "r", "declared-and-m"])
+    has_own = True if shape == "r" else rng.random() < 0.6
+    first = {"name": "tool", "fwd": True}
+    if shape in ("r-and-m", "r"):
+        first["dir"] = "tool"
+    else:
+        first["version"] = "1.0"
+    if shape != "r":
+        first["table"] = "dev"
+    env0 = {"PATH": "/usr/bin:/bin"}
+    if rng.random() < 0.4:
+        env0["TOOL_PATH"] = rng.choice(["/opt/site/lib", "/opt/a:/opt/b", ""])
+    return {"world": w, "requests": [first, {"name": "tool", "fwd": False}], "env0": env0, "shape": shape,
+            "locals": {"tool": lines("_L", rng.random() < 0.4) if has_own else None},
+            "tables": {"dev": lines("_M", rng.random() < 0.5)}}
+
+
+def oracle_directory(ctx, s, res):
+    """the property as written, on the environment alone: after setup + unsetup every variable is as before (path-like
+    values as duplicate-free lists of non-empty elements, unset = empty)"""
+    r1, r2 = res["records"][0], res["records"][1]
+    case = {k: s[k] for k in ("world", "requests", "env0", "locals", "tables")}
+    own = s["locals"].get("tool") is not None
+    ctx.count(1, key="directory/%s/%s/%s" % (s.get("shape") or "replay", "own-table" if own else "no-own-table",
+                                             "setup-ok" if r1["ok"] else "setup-failed"),
+              nontrivial=json.dumps(case, sort_keys=True) if r1["ok"] and len(S.setup_records(r1["after"])) > 1 else None)
+    if not r1["ok"]:
+        return
+    if not any(k.startswith("SETUP_") for k in r1["after"]):
+        ctx.fail("setup-did-nothing", case, expected="a setup record", observed=sorted(r1["after"]), what="setup reported success but recorded nothing")
+        return
+    if not r2["ok"]:
+        ctx.fail("unsetup-failed", case, expected="unsetup succeeds", observed="failed",
+                 what="unsetup of a product that was just set up failed")
+        return
+    norm = lambda env: {k: S.uniq_list([x for x in v.split(":") if x]) for k, v in env.items()
+                        if k not in ("EUPS_PATH", "EUPS_USERDATA", "EUPS_FLAVOR", "EUPS_SHELL", "HOME") and [x for x in v.split(":") if x]}
+    a, b = norm(r1["before"]), norm(r2["after"])
+    if a != b:
+        diff = {k: (a.get(k), b.get(k)) for k in set(a) | set(b) if a.get(k) != b.get(k)}
+        ctx.fail("not-restored", case, expected={k: v[0] for k, v in diff.items()}, observed={k: v[1] for k, v in diff.items()},
+                 what="after setup + unsetup of %r: %r" % (r1["request"], diff))
 
 
 def norm_env(res, env):
@@ -470,12 +533,20 @@ def run(ctx):
         ctx.bump("family:" + sc["world"]["family"])
     S.run_scenarios(ctx, r6, oracle)
     S.run_scenarios_ms(ctx, r6ms, oracle_ms)
+    # round 7.  Products named by a directory and / or a table file of the user's choice (setup -r DIR [-m TABLE], setup
+    # X 1.0 -m TABLE), then unsetup by a new invocation; real code only, judged by the oracle
+    r7 = [gen_scenario_directory(ctx.rng) for _ in range(ctx.size(DIRECTORY, 600))]
+    for sc in r7:
+        ctx.bump("family:" + sc["world"]["family"])
+    S.run_scenarios_local(ctx, r7, oracle_directory)
 
 
 def replay(ctx, path):
     register(ctx)
     obj = json.load(open(path))
-    if S.is_ms(obj["input"]["world"]):
+    if "locals" in obj["input"]:
+        S.run_scenarios_local(ctx, [obj["input"]], oracle_directory)
+    elif S.is_ms(obj["input"]["world"]):
         S.run_scenarios_ms(ctx, [obj["input"]], oracle_ms)
     else:
         S.run_scenarios(ctx, [obj["input"]], oracle)
